@@ -1,0 +1,15 @@
+//go:build verif
+
+package cache
+
+// VerifYieldHook is called, when set, at the boundaries between the separate
+// critical sections of multi-step methods (no lock is held at these points).
+// It exists only with the build tag `verif` and lets a cooperative scheduler
+// force interleavings at critical-section granularity.
+var VerifYieldHook func(point string)
+
+func verifYield(point string) {
+	if h := VerifYieldHook; h != nil {
+		h(point)
+	}
+}
